@@ -166,5 +166,17 @@ func checkKeyPath(fs afero.Fs, root, objectPath string) error {
 	return nil
 }
 
+// objectInTheWay reports whether dir (slash separated, below root) or one of
+// its ancestors below root is an object file: no key can lie below it.
+func objectInTheWay(fs afero.Fs, root, dir string) bool {
+	root = path.Clean(root)
+	for ; dir != root && dir != "." && dir != "/"; dir = path.Dir(dir) {
+		if stat, err := fs.Stat(filepath.FromSlash(dir)); err == nil && !stat.IsDir() {
+			return true
+		}
+	}
+	return false
+}
+
 var errKeyConflict = gofakes3.ErrorMessage(gofakes3.ErrInvalidArgument,
 	"the key is a path prefix of an existing key or extends one; this backend cannot store both")
